@@ -447,6 +447,11 @@ func init() {
 				vx.Job{Scenario: "cfg.wire", Params: vx.P("browser", br, "roles", "refuse,ok", "numconn", "1"), Bound: 0, BudgetS: 100, Weight: 3},
 				vx.Job{Scenario: "cfg.wire", Params: vx.P("browser", br, "roles", "reset,refuse,ok,ok,ok", "numconn", "3"), Bound: 1, BudgetS: 100, Weight: 5})
 		}
+		// Transport=CDN: the handshake reaches the origin through a TLS-terminating edge, to which the client
+		// presents the configured ServerName (the driver is shared with C06; it compares the name the edge saw)
+		jobs = append(jobs, vx.Job{Scenario: "hs.agree", Params: vx.P("transport", "cdn", "browser", "chrome", "product", "star", "seeds", "1"), Weight: 4})
+		// the program itself: every subset of the overriding command-line options against a configuration file
+		jobs = append(jobs, vx.Job{Scenario: "climain.flags", Weight: 4})
 		if tier == "thorough" {
 			const total = 1 << 18
 			const shards = 16
